@@ -205,6 +205,10 @@ type outcome struct {
 	crashed  bool   // a crash (marker or op) happened
 	fired    bool   // the selected marker crash fired
 	firedOp  int    // op during which it fired
+	firedNo  int    // ordinal of the crash it caused (1 = first crash of the run)
+	// crashes: number of crashes in the whole run; epochCrashes[e]: crashes that had happened when epoch e began
+	crashes      int
+	epochCrashes []int
 	trouble  string // harness-side problem => inconclusive, never a violation
 	bad      []string
 	stopDown bool // some Stop request was answered "down" (outage overlaps a stop)
@@ -265,6 +269,7 @@ func (r *runner) hook(site, sid string) {
 		r.out.fired = true
 		r.out.firedOp = r.opIdx
 		c := r.crashes + 1
+		r.out.firedNo = c
 		r.mu.Unlock()
 		r.srv.set(func() { r.srv.crashes = c }) // whatever arrives from now on is "after a crash"
 		runtime.Goexit()
@@ -291,6 +296,9 @@ func (r *runner) do(f func()) {
 }
 
 func (r *runner) newManager() {
+	for len(r.out.epochCrashes) <= r.epoch {
+		r.out.epochCrashes = append(r.out.epochCrashes, r.crashes)
+	}
 	p := r.srv.port()
 	cl, err := radius.NewClient(radius.ClientConfig{
 		Servers:   []radius.ServerConfig{{Host: "127.0.0.1", Port: p - 1, Secret: secret}},
@@ -420,31 +428,10 @@ func (r *runner) crashAndRestart(downtime int) {
 		if snap.SessionFiles[id] || snap.PendingStops[id] {
 			continue // durable: restart must produce the Stop
 		}
-		attempted := false // a Stop for the session reached the server (and was rejected) or was lost on the way
-		for _, e := range log {
-			attempted = attempted || (e.SID == id && e.Type == tStop)
-		}
 		r.mu.Lock()
-		for _, sr := range r.sends {
-			if sr.SID == id && sr.Lost && (sr.Site == "stop" || sr.Site == "drain" || sr.Site == "recover") {
-				attempted = true
-			}
-		}
+		sends := append([]*sendRec(nil), r.sends...)
 		r.mu.Unlock()
-		switch {
-		case st.startEpoch < r.epoch && attempted:
-			st.lostClass = "recovered-stop-only-in-memory"
-		case st.startEpoch < r.epoch:
-			st.lostClass = "dropped-by-recovery-without-attempt"
-		case st.stopCalled && st.stopEpoch == r.epoch && attempted:
-			st.lostClass = "failed-stop-only-in-memory"
-		case st.stopCalled && st.stopEpoch == r.epoch:
-			st.lostClass = "crash-in-stopsession-nothing-durable"
-		case !st.startReturned:
-			st.lostClass = "crash-in-startsession-before-persist"
-		default:
-			st.lostClass = "active-session-not-on-disk"
-		}
+		st.lostClass = r.lostClassAtCrash(id, st, log, sends)
 	}
 	time.Sleep(time.Duration(downtime)*time.Second + time.Millisecond)
 	r.mu.Lock()
@@ -454,6 +441,81 @@ func (r *runner) crashAndRestart(downtime int) {
 	r.mu.Unlock()
 	r.stamp()
 	r.newManager()
+}
+
+// lostClassAtCrash names the shape of a lost Stop at the moment it becomes lost: the process has just
+// crashed, session `id` was started (accounting began), has no accepted Stop, and nothing on disk (neither
+// sessions/<id>.json nor a Stop in pending.json) from which a restart could produce one.  Decided only from
+// what the harness saw: the op history, the crash marker that fired, the directory as found at the
+// previous restart, and the record stream / sends of the incarnation that just died.
+//
+// Two shapes are recorded defects of the pinned tree (known_findings: KF-C08-2, KF-C08-3); each listed
+// class is kept for exactly the recorded root cause, every other way of losing the Stop gets its own class:
+//
+//	recovered-stop-only-in-memory (KF-C08-2): the session belongs to an EARLIER incarnation, its Stop was
+//	  durable when THIS incarnation started (session file or pending.json), and recovery moved it into the
+//	  in-memory retry queue — pending.json is deleted once loaded, a session file once its Stop has been
+//	  attempted (the failed attempt of this incarnation is in the record stream / the sends).
+//	crash-in-startsession-before-persist (KF-C08-3): the crash is the marker crash, it fired while
+//	  StartSession of this very session was running, the Start had been accepted, and StartSession had not
+//	  yet passed persist-session.after (the file was never written, as opposed to written and gone).
+func (r *runner) lostClassAtCrash(id string, st *sessState, log []rec, sends []*sendRec) string {
+	thisCrashIsMarker := r.out.fired && r.out.firedNo == r.crashes
+	stopAttempted := func(epoch int, sites ...string) bool { // a Stop of the session was rejected, or lost on the way from one of sites; epoch < 0: any
+		for _, e := range log {
+			if e.SID == id && e.Type == tStop && (epoch < 0 || (e.Epoch == epoch && !e.Accepted)) {
+				return true
+			}
+		}
+		for _, sr := range sends {
+			if sr.SID == id && sr.Lost && (epoch < 0 || sr.Epoch == epoch) {
+				for _, s := range sites {
+					if sr.Site == s {
+						return true
+					}
+				}
+			}
+		}
+		return false
+	}
+	switch {
+	case st.startEpoch < r.epoch:
+		var s0 *dirSnap // the directory as this incarnation found it
+		for i := range r.out.snaps {
+			if r.out.snaps[i].Epoch == r.epoch {
+				s0 = &r.out.snaps[i]
+			}
+		}
+		switch {
+		case s0 == nil || !(s0.SessionFiles[id] || s0.PendingStops[id]):
+			// already gone when this incarnation started, and the previous restart was a graceful one
+			// (a crash would have classified it then): the shutdown lost it, recovery is not involved
+			return "nothing-durable-at-last-restart"
+		case s0.PendingStops[id]:
+			return "recovered-stop-only-in-memory" // pending.json loaded into memory and deleted
+		case stopAttempted(r.epoch, "recover"):
+			return "recovered-stop-only-in-memory" // orphan's Stop failed, queued in memory, session file removed
+		default:
+			return "dropped-by-recovery-without-attempt" // session file removed although no Stop was even tried
+		}
+	case st.stopCalled && st.stopEpoch == r.epoch && stopAttempted(-1, "stop", "drain", "recover"):
+		return "failed-stop-only-in-memory"
+	case st.stopCalled && st.stopEpoch == r.epoch:
+		return "crash-in-stopsession-nothing-durable"
+	case !st.startReturned:
+		// StartSession did not complete, yet RADIUS accepted the Start
+		if !(thisCrashIsMarker && r.out.firedOp == st.startOp) {
+			return "startsession-failed-after-accepted-start" // no crash interrupted it: it returned an error and left nothing durable
+		}
+		for _, m := range r.out.markers {
+			if m.Site == "persist-session.after" && m.SID == id && m.Op == st.startOp && m.Epoch == st.startEpoch {
+				return "crash-in-startsession-file-missing-after-persist"
+			}
+		}
+		return "crash-in-startsession-before-persist"
+	default:
+		return "active-session-not-on-disk"
+	}
 }
 
 func hasAccepted(log []rec, sid string, typ uint32) bool {
@@ -642,6 +704,7 @@ func execute(t *testing.T, h *history, sel *crashSel) *outcome {
 	})
 	out.log = srv.snapshot()
 	out.sends = r.sends
+	out.crashes = r.crashes
 	linkSends(out.log, out.sends)
 	if len(out.log) > 0 && len(out.sends) == 0 && out.trouble == "" {
 		// the client no longer sends through layeh's DefaultClient: latencies were not applied
